@@ -5,5 +5,6 @@ var Registry = map[string]func(tier string) int{
 	"C03": C03,
 	"C08": C08,
 	"C10": C10,
+	"C15": C15,
 	"C16": C16,
 }
